@@ -211,6 +211,78 @@ func c09(p *core.Program, r *core.Report) {
 		}
 	}
 
+	const re = "area-terms-from-ring-ordinates"
+	r.Rule(re, "every operand of the floating-point arithmetic in the ring-area kernel is an ordinate loaded from the kernel's coordinate array, a constant, or the result of such arithmetic (through phis): no other number - a float parameter, a value loaded from elsewhere, the result of a call - enters the sum. A foreign term (an origin the ordinates are taken relative to) leaves the area unchanged only if it cancels exactly, which needs a ring that repeats its first vertex and exact subtraction; otherwise Area is no longer the shoelace sum of the stored coordinates, and a polygon's area no longer the sum of its rings'", 1)
+	if fn := mustFn(p, r, re, "", "doubleArea1"); fn != nil {
+		var okOperand func(v ssa.Value, depth int, seen map[ssa.Value]bool) string
+		okOperand = func(v ssa.Value, depth int, seen map[ssa.Value]bool) string {
+			if seen[v] || depth > 10 {
+				return ""
+			}
+			seen[v] = true
+			v = eng.StripConv(v)
+			switch x := v.(type) {
+			case *ssa.Const:
+				return ""
+			case *ssa.BinOp:
+				return "" // judged where it is computed
+			case *ssa.Phi:
+				for _, e := range x.Edges {
+					if why := okOperand(e, depth+1, seen); why != "" {
+						return why
+					}
+				}
+				return ""
+			case *ssa.UnOp:
+				if x.Op == token.SUB {
+					return okOperand(x.X, depth+1, seen)
+				}
+				if x.Op == token.MUL {
+					if ia, ok := x.X.(*ssa.IndexAddr); ok && isFloatSlice(ia.X.Type()) {
+						root := sliceRoot(ia.X)
+						if _, isP := root.(*ssa.Parameter); isP {
+							return ""
+						}
+						// the kernel as a method of the geometry: the array is a field of the receiver
+						if fl, isLd := root.(*ssa.UnOp); isLd && fl.Op == token.MUL {
+							if base, path := fieldRoot(fl.X); path != "" && len(fn.Params) > 0 && base == ssa.Value(fn.Params[0]) && fn.Signature.Recv() != nil {
+								return ""
+							}
+						}
+					}
+					return "a value loaded from " + x.X.String()
+				}
+			case *ssa.Parameter:
+				return "the parameter " + x.Name()
+			case *ssa.Call:
+				return "the result of the call " + x.String()
+			}
+			return "the value " + v.String()
+		}
+		n := 0
+		bad := ""
+		for _, b := range fn.Blocks {
+			for _, in := range b.Instrs {
+				bo, ok := in.(*ssa.BinOp)
+				if !ok || !isFloat64(bo.Type()) {
+					continue
+				}
+				switch bo.Op {
+				case token.ADD, token.SUB, token.MUL, token.QUO:
+				default:
+					continue
+				}
+				n++
+				for _, o := range []ssa.Value{bo.X, bo.Y} {
+					if why := okOperand(o, 0, map[ssa.Value]bool{}); why != "" && bad == "" {
+						bad = fmt.Sprintf("%s enters the area sum at %s (%s): it is not an ordinate of the ring", why, p.Pos(bo.Pos()), bo.String())
+					}
+				}
+			}
+		}
+		r.Check(bad == "" && n > 0, re, short(fn)+"/operands", p.Pos(fn.Pos()), true, fmt.Sprintf("%d float operations, all over ordinates of the ring and constants", n), bad)
+	}
+
 	r.Assume("numerical accuracy of the shoelace/length sums and additivity as an equation are not decided")
 	r.Assume("LASTELEM/CHAIN are decided on SSA values (value equivalence of repeated pure field/index expressions assumes no store to the same field/element type in the function); floors are set below today's counts (9 sites, 17 loops) so that merging duplicated iterators is not reported")
 }
